@@ -204,6 +204,11 @@ def simp(t, used, boolargs=False):
         # comparisons against 0 of a truth value
         if op in ("==", "!=") and b == ("int", 0) and a[0] == "bin" and a[1] in RELOPS:
             return a if op == "!=" else lnot(a, used)
+        if op in ("==", "!=") and b == ("int", 1) and a[0] == "bin" and a[1] == "&" and a[3] == ("int", 1):
+            used.add("(x&1)==1 -> x%2!=0")
+            a = ("bin", "%", a[2], ("int", 2))
+            b = ("int", 0)
+            op = "!=" if op == "==" else "=="
         if op in ("==", "!=") and b == ("int", 0) and a[0] == "bin" and a[1] == "&" and a[3] == ("int", 1):
             used.add("(x&1) -> x%2!=0")
             a = ("bin", "%", a[2], ("int", 2))
